@@ -27,7 +27,7 @@ ASSUMPTIONS = [
 SHARDS = {"quick": 4, "thorough": 16}
 TIMEOUT = {"quick": 480, "thorough": 2400}
 MIN_EVALS = 80
-REQUIRED_COUNTERS = ("sessions", "traces_checked", "probe_ok")
+REQUIRED_COUNTERS = ("sessions", "traces_checked", "probe_ok", "stopped_daemon_sessions:clear", "stopped_daemon_sessions:request")
 TECHNIQUE = "runtime monitoring: real daemon sessions under signals/delays; stall detector + protocol-trace automaton + API oracle"
 
 GOOD_ECLASSES = {"g1": 'IUSE="g1f"\n', "g2": 'IUSE="g2f"\ninherit g1\n', "g3": 'DEPEND="dev/g3"\n'}
@@ -61,6 +61,9 @@ BODIES = {
 
 
 class Harness:
+    timeouts = 0          # pkgcore-internal liveness timeouts seen in this process
+    expect_timeout = False
+
     def __init__(self, ctx):
         from pkgcore.ebuild import processor
         from .. import ebd
@@ -108,6 +111,35 @@ class Harness:
 
             processor.EbuildProcessor.is_responsive = property(probed)
             processor.EbuildProcessor._vt_probe_wrapped = True
+            orig_timeout = processor.EbuildProcessor._timeout_ebp
+
+            def timed_out(self_, signum, frame):
+                # pkgcore's own 10 s alarm on the liveness probe fired.  Why?  If the daemon is still busy (runnable,
+                # waiting for a helper of its own, stopped, or with the request / its answer still sitting in a pipe)
+                # the box is merely slower than the alarm: the step is discarded.  If the daemon is gone or sits idle
+                # on an empty command pipe, the probe was never going to be answered: that is the protocol's doing
+                # and the step is judged as usual.
+                cause = "daemon-busy"
+                try:
+                    pid = self_.pid
+                    if not pid or ebd.proc_state(pid) is None:
+                        cause = "daemon-gone"
+                    else:
+                        blocked, _d = ebd.daemon_blocked_reading(pid)
+                        if blocked:
+                            diag = ebd.stall_diagnostics(pid, self_)
+                            reply_empty = ebd.fionread(self_.ebd_read.fileno()) == 0
+                            if (not diag["reads_elsewhere"] and diag["reads_on_command_pipe"]
+                                    and diag["command_pipe_unread"] == 0 and reply_empty):
+                                cause = "daemon-idle"
+                except Exception:
+                    cause = "daemon-busy"
+                ctx.count("pkgcore_liveness_alarm:" + cause)
+                if cause == "daemon-busy":
+                    Harness.timeouts += 1
+                return orig_timeout(self_, signum, frame)
+
+            processor.EbuildProcessor._timeout_ebp = timed_out
         Harness.current = self
         self.pkgs = {}
         from pkgcore.ebuild.cpv import VersionedCPV
@@ -299,13 +331,51 @@ def session(ctx, h, actions=None):
         wit = {"script_so_far": log + [action], "last_kind": action[0] + (":" + str(action[2]) if action[0] == "phase" else "")
                + (":" + action[1] if action[0] == "metadata" else "")}
         h.ebd.take_stalls()
+        # Verdicts of this step are committed only if pkgcore's own 10 s liveness alarm did not fire during it: on an
+        # overloaded box a daemon may simply be slower than that, pkgcore then abandons the probe (callers discard the
+        # processor) and every later line on that pipe is out of step by construction.  The deliberate variant of that
+        # schedule (daemon stopped for longer than the alarm) is judged in stopped_daemon_session().
+        t_mark = Harness.timeouts
+        pending = []
+        commit = ctx.violation
+        ctx.violation = lambda kind, witness, _p=pending: _p.append((kind, witness))
+        try:
+            log_len = len(log)
+            _step(ctx, h, rng, action, wit, log)
+        finally:
+            ctx.violation = commit
+        if Harness.timeouts != t_mark and not Harness.expect_timeout:
+            ctx.count("steps_discarded_pkgcore_liveness_alarm_fired", 1)
+            ctx.skip_unspecified("pkgcore's 10 s liveness alarm fired (overloaded box): processor discarded, step not judged")
+            h.ebd.take_stalls()
+            del h.stale_probes[:]
+            for tr in list(h.registry):
+                tr.vt_checked_upto = len(tr.events)
+            h.ebd.shutdown_all()
+        else:
+            for kind, witness in pending:
+                ctx.violation(kind, witness)
+        if len(log) > log_len:
+            e = log[-1]
+            if e.get("interesting"):
+                interesting = True
+    if interesting and log:
+        ctx.nontrivial(repr([(e["action"], e["outcome"].split(":")[0], bool(e["signal"])) for e in log]))
+    ctx.count("sessions")
+    if ctx.want_sample() and log:
+        ctx.sample({"session": [{k: v for k, v in e.items() if k != "interesting"} for e in log]})
+    h.ebd.shutdown_all()
+
+
+def _step(ctx, h, rng, action, wit, log):
+        interesting = False
         try:
             ebp = h.acquire()
         except BaseException as e:
             ctx.evaluated()
             ctx.violation("cannot-acquire-processor", dict(wit, error="%s: %s" % (type(e).__name__, str(e)[:300]), rule=wit["last_kind"]))
             h.ebd.shutdown_all()
-            continue
+            return
         disturb = None
         sigdesc = None
         if len(action) > 0 and action[0] in ("metadata", "phase", "env", "preload") and rng.random() < 0.18 and ebp.pid:
@@ -390,14 +460,74 @@ def session(ctx, h, actions=None):
         # whatever happened: the processor handed out next must be in sync
         if outcome == "raised:KeyboardInterrupt":
             ctx.count("keyboard_interrupts_seen")
+        entry["interesting"] = interesting
         h.probe(dict(wit, outcome=outcome, signal=sigdesc))
         h.check_traces(dict(wit, outcome=outcome, signal=sigdesc), tolerate_unknown=True)
-    if interesting and log:
-        ctx.nontrivial(repr([(e["action"], e["outcome"].split(":")[0], bool(e["signal"])) for e in log]))
-    ctx.count("sessions")
-    if ctx.want_sample() and log:
-        ctx.sample({"session": log})
+
+
+def stopped_daemon_session(ctx, h, variant):
+    """Deliberate schedule: the daemon is stopped (SIGSTOP) for longer than pkgcore's 10 s liveness alarm while Python
+    calls an API that probes it; after SIGCONT the late 'yep!' arrives.  Whatever pkgcore decides to do with that
+    processor, the requests that follow must be matched with their own replies."""
     h.ebd.shutdown_all()
+    h.ebd.take_stalls()
+    del h.stale_probes[:]
+    wit = {"script_so_far": [["stopped-daemon", variant]], "last_kind": "stopped-daemon:" + variant}
+    Harness.expect_timeout = True
+    t_mark = Harness.timeouts
+    try:
+        try:
+            ebp = h.acquire()
+            h.act(ebp, ["preload", ["g1"], False])
+            pid = ebp.pid
+            if variant == "request":
+                h.release(ebp)      # the stopped daemon sits in the pool; the next request probes it
+            os.killpg(pid, signal.SIGSTOP)
+            t0 = time.monotonic()
+            if variant == "clear":
+                outcome, detail = h.act(ebp, ["clear"])
+            else:
+                try:
+                    ebp2 = h.acquire()
+                    outcome = "ok"
+                except BaseException as e:
+                    ebp2, outcome = None, "raised:" + type(e).__name__
+            waited = time.monotonic() - t0
+            try:
+                os.killpg(pid, signal.SIGCONT)
+            except OSError:
+                pass
+            if variant == "clear":
+                h.release(ebp)
+            elif ebp2 is not None:
+                h.release(ebp2)
+        except BaseException as e:
+            ctx.note("stopped-daemon scenario could not be set up: %s: %s" % (type(e).__name__, str(e)[:200]))
+            return
+        ctx.count("stopped_daemon_sessions:" + variant)
+        ctx.evaluated()
+        if Harness.timeouts == t_mark:
+            # pkgcore did not wait for its alarm (e.g. it found the daemon dead): nothing deliberate happened
+            ctx.count("stopped_daemon_sessions_without_alarm")
+        wit.update(outcome=outcome, waited_s=round(waited, 1), alarm_fired=Harness.timeouts != t_mark)
+        time.sleep(0.3)   # let the continued daemon answer the abandoned probe
+        for _ in range(3):
+            h.probe(dict(wit))
+        for sp in h.stale_probes:
+            ctx.evaluated()
+            ctx.violation("liveness-probe-answered-by-another-reply",
+                          dict(wit, read_instead_of_yep=sp["line"], trace_tail=sp["tail"], rule="stopped-daemon:" + variant))
+        del h.stale_probes[:]
+        stalls = h.ebd.take_stalls()
+        if stalls:
+            ctx.violation("both-sides-blocked-reading", dict(wit, stall=stalls[0], rule=wit["last_kind"]))
+        # the automaton is not run over these traces: an abandoned probe's late reply is by construction unpaired on the
+        # processor pkgcore discarded; what matters is that no LATER request is answered by it (probes above)
+        for tr in list(h.registry):
+            tr.vt_checked_upto = len(tr.events)
+    finally:
+        Harness.expect_timeout = False
+        h.ebd.shutdown_all()
 
 
 def run(ctx):
@@ -415,6 +545,10 @@ def run(ctx):
         [["metadata", "cat/multiline-1"], ["alive"], ["metadata", "cat/ok1-1"], ["phase", "pretend", "stderr-multiline-fail", False], ["alive"]],
     ]
     try:
+        if not ctx.quick or ctx.shard < 2:
+            stopped_daemon_session(ctx, h, ("request", "clear")[ctx.shard % 2])
+            if not ctx.quick:
+                stopped_daemon_session(ctx, h, ("clear", "request")[ctx.shard % 2])
         for i, script in enumerate(directed):
             if i % ctx.nshards == ctx.shard % len(directed) or not ctx.quick:
                 session(ctx, h, actions=[list(a) for a in script])
@@ -436,6 +570,12 @@ def classify(w):
 def replay(ctx, w):
     h = Harness(ctx)
     h.shapes = set()
+    if (w.get("last_kind") or "").startswith("stopped-daemon:"):
+        try:
+            stopped_daemon_session(ctx, h, w["last_kind"].split(":", 1)[1])
+        finally:
+            h.ebd.shutdown_all()
+        return
     script = [e["action"] if isinstance(e, dict) else e for e in w.get("script_so_far", [])]
     try:
         for _ in range(3):
